@@ -53,6 +53,7 @@ func init() {
 			{ID: "C14-R28", Title: "what holds loaded code is forgotten with it", Floor: 1, Run: whatHoldsLoadedCodeIsForgottenWithIt},
 			{ID: "C14-R29", Title: "where the VM keeps script values is enumerated", Floor: 4, Run: whereTheVMKeepsScriptValuesIsEnumerated},
 			{ID: "C14-R30", Title: "frames pushed for a module are restored by defer (shared with C04-R4)", Floor: 2, Run: c04r4},
+			{ID: "C14-R31", Title: "a validator judges the string it was given", Floor: 1, Run: aValidatorJudgesTheStringItWasGiven},
 		},
 	})
 }
